@@ -673,6 +673,9 @@ func (d *cborDecDriver[T]) decTagBigIntAsFloat(neg bool) (f float64) {
 		bi = new(big.Int).Sub(big.NewInt(-1), bi0)
 	}
 	f, _ = bi.Float64()
+	if math.IsInf(f, 0) { // a finite bignum beyond the float64 range is not silently stored as infinity
+		halt.errorStr("cbor bignum overflows float64")
+	}
 	return
 }
 
@@ -699,6 +702,9 @@ func (d *cborDecDriver[T]) decTagBigFloatAsFloat(decimal bool) (f float64) {
 		bfm := new(big.Float).SetPrec(64).SetInt64(mant)
 		bf := new(big.Float).SetPrec(64).SetMantExp(bfm, int(exp))
 		f, _ = bf.Float64()
+		if math.IsInf(f, 0) { // finite m*(2**e) beyond the float64 range
+			halt.errorStr("cbor bigfloat overflows float64")
+		}
 	}
 	return
 }
